@@ -16,6 +16,7 @@ SAN_ENV = {
     "ASAN_OPTIONS": "detect_leaks=1:abort_on_error=0:allocator_may_return_null=1:max_allocation_size_mb=3000:"
                     "detect_stack_use_after_return=0:handle_abort=1",
     "UBSAN_OPTIONS": "halt_on_error=1:print_stacktrace=1",
+    "TSAN_OPTIONS": "halt_on_error=1:report_signal_unsafe=0",
 }
 
 # ------------------------------------------------------------------------------------------------
@@ -31,6 +32,8 @@ harness("c15_io", "san", "pbt/c15_io.cc", link="-lrapidcheck")
 harness("dec_enum", "san", "fuzz/dec_enum.cc", link="-lrapidcheck")
 harness("c05_corpus", "san", "pbt/c05_corpus.cc", link="-lrapidcheck")
 harness("c06_history", "san", "pbt/c06_history.cc", link="-lrapidcheck")
+harness("c19_threads_tsan", "tsan", "pbt/c19_threads.cc", link="-lrapidcheck")
+harness("c19_threads_asan", "san", "pbt/c19_threads.cc", link="-lrapidcheck")
 harness("c06_history_plain", "plain", "pbt/c06_history.cc", link="-lrapidcheck")
 harness("dec_fuzz", "san", "fuzz/dec_fuzz.cc", link="-fsanitize=fuzzer")
 # the command line tools of the repository, plain optimised build (C15 pipelines)
@@ -143,6 +146,13 @@ def run_shards(res, prop, hname, exe, mode, tier, shards, cases, max_size=100, e
         outs = list(ex.map(one, range(shards)))
     for i, rc, out, log in outs:
         ok = res.merge_file(out, hname, exe, mode)
+        if rc not in (0, -999) and (extra_env or {}).get("VERIF_PRESAVE"):
+            # the process died (sanitizer): the case it was running was saved before it started
+            for pend in glob.glob(os.path.join(REPLAY, "tmp", "%s-pending-*.json" % prop)):
+                dst = pend.replace("-pending-", "-crash-")
+                os.replace(pend, dst)
+                res.failures.append((hname, exe, mode, dst, "process died while running this case (sanitizer report)"))
+                shutil.copy(log, dst + ".shardlog")
         if rc == -999:
             res.extra.setdefault("inconclusive_timeouts", 0)
             res.extra["inconclusive_timeouts"] += 1
@@ -655,7 +665,27 @@ def check_c06(tier):
                                "through allocator perturbation and valgrind only"])
 
 
+def check_c19(tier):
+    t0 = time.time()
+    exes = ensure_built(["c19_threads_tsan", "c19_threads_asan"])
+    res = Result()
+    # few processes: each round runs up to 16 threads of its own
+    run_shards(res, "C19", "c19_threads_tsan", exes["c19_threads_tsan"], "c19", tier, 4, 40 if tier == "quick" else 750, label="tsan",
+               extra_env={"VERIF_PRESAVE": "1"})
+    res.classes["rounds_under_tsan"] = res.evaluations
+    ev0 = res.evaluations
+    run_shards(res, "C19", "c19_threads_asan", exes["c19_threads_asan"], "c19", tier, 4, 60 if tier == "quick" else 750, label="asan")
+    res.classes["rounds_under_asan"] = res.evaluations - ev0
+    res.required_classes = ["threads_2", "threads_4", "threads_8", "threads_16", "rounds_under_tsan", "rounds_under_asan"]
+    return finish("C19", tier, res, t0,
+                  assumptions=["ThreadSanitizer's happens-before analysis flags unsynchronised shared accesses independently of the "
+                               "interleaving that actually occurred; a correctly locked global that leaks state between calls is "
+                               "visible only through the result comparison under a lucky schedule",
+                               "schedules are explored, not enumerated"])
+
+
 CHECKS = {
+    "C19": check_c19,
     "C07": check_c07,
     "C06": check_c06,
     "C05": check_c05,
@@ -685,6 +715,7 @@ REPLAYERS = {
     "C15": [("c15_io", "c15")],
     "C05": [("c05_corpus", "c05")],
     "C06": [("c06_history", "c06")],
+    "C19": [("c19_threads_tsan", "c19")],
     "C02": [("dec_enum", "x")],
     "C03": [("dec_enum", "x")],
     "C18": [("dec_enum", "x")],
